@@ -117,7 +117,7 @@ static char devname[600];
 static int dev_is_file = 0;
 
 static FILE *wlog = NULL;        /* ordered write log (block, 512 bytes hex) */
-static int wlog_full = 0;
+static int wlog_full = 0, wlog_reads = 0;
 static long n_reads = 0, n_writes = 0;      /* since last reset              */
 static long fault_rd = 0, fault_wr = 0;     /* k-th read/write fails (1-based; 0 = off) */
 static int fault_sticky = 0;
@@ -140,6 +140,7 @@ static int io_hook(int is_write, uint32_t n, unsigned size, const uint8_t *wbuf,
     if (!is_write) {
         n_reads++; rd_since++; reads_this_call++;
         if (read_limit && reads_this_call > read_limit && bail_armed) siglongjmp(bail, 1);
+        if (wlog && wlog_reads) fprintf(wlog, "R %u %u\n", n, size);
         if (fault_rd && (rd_since == fault_rd || (fault_sticky && rd_since > fault_rd))) {
             if (rbuf) memset(rbuf, garbage_byte, size);
             return -1;
@@ -453,7 +454,8 @@ int main(int argc, char **argv) {
         else if (!strcmp(c, "mallocfail")) { malloc_count = 0; malloc_fail_at = atol(a[1]); out("ok"); }
         else if (!strcmp(c, "wlog")) { /* wlog <path> [full] | wlog off */
             if (wlog) fclose(wlog); wlog = NULL;
-            if (strcmp(a[1], "off")) { wlog = fopen(a[1], "w"); wlog_full = na > 2 && !strcmp(a[2], "full"); }
+            if (strcmp(a[1], "off")) { wlog = fopen(a[1], "w"); wlog_full = 0; wlog_reads = 0;
+                for (int i = 2; i < na; i++) { if (!strcmp(a[i], "full")) wlog_full = 1; if (!strcmp(a[i], "reads")) wlog_reads = 1; } }
             out("ok");
         }
         else if (!strcmp(c, "wmark")) { if (wlog) fprintf(wlog, "M %s\n", na > 1 ? a[1] : "-"); out("ok"); }
@@ -465,6 +467,18 @@ int main(int argc, char **argv) {
             while (h[0] && h[1] && off < mem_size) { mem[off++] = (uint8_t)(hexval(h[0]) * 16 + hexval(h[1])); h += 2; }
             out("ok");
         }
+        else if (!strcmp(c, "poke32")) { /* poke32 <physblock> <offset> <value> [fixsum <sumoffset>] : big-endian field, optional normal-checksum repair */
+            size_t off = (size_t)atol(a[1]) * 512; uint32_t v = (uint32_t)strtoul(a[3], NULL, 0); size_t fo = (size_t)atol(a[2]);
+            if (off + 512 > mem_size) { out("err range"); continue; }
+            mem[off + fo] = v >> 24; mem[off + fo + 1] = v >> 16; mem[off + fo + 2] = v >> 8; mem[off + fo + 3] = v;
+            if (na > 5 && !strcmp(a[4], "fixsum")) { size_t so = (size_t)atol(a[5]); uint32_t sum = 0;
+                for (size_t i = 0; i < 512; i += 4) if (i != so) sum += ((uint32_t)mem[off+i] << 24) | (mem[off+i+1] << 16) | (mem[off+i+2] << 8) | mem[off+i+3];
+                sum = (uint32_t)(-(int32_t)sum); mem[off+so] = sum >> 24; mem[off+so+1] = sum >> 16; mem[off+so+2] = sum >> 8; mem[off+so+3] = sum; }
+            out("ok");
+        }
+        else if (!strcmp(c, "peek32")) { size_t off = (size_t)atol(a[1]) * 512 + (size_t)atol(a[2]);
+            if (off + 4 > mem_size) { out("err range"); continue; }
+            out("ok %u", ((uint32_t)mem[off] << 24) | (mem[off+1] << 16) | (mem[off+2] << 8) | mem[off+3]); }
         else if (!vol && strcmp(c, "end")) { out("err novol"); }
         else if (!strcmp(c, "mkdir")) { /* mkdir <dirpath> <namehex> */
             if (goto_dir(a[1])) { out("err nopath"); continue; }
@@ -512,10 +526,11 @@ int main(int argc, char **argv) {
             if (sigsetjmp(bail, 1)) { in_lib = 0; bail_armed = 0; out("hang"); fflush(stdout); _exit(3); }
             ENTER(); struct AdfList *l = adfGetRDirEnt(vol, vol->curDirPtr, rec); LEAVE(); bail_armed = 0;
             int n = 0; for (struct AdfList *p = l; p; p = p->next) n++;
+            long rd = reads_this_call;
             print_list(l, 0, rec);
             ENTER(); if (l) adfFreeDirList(l); LEAVE();
             uc = FALSE; adfChgEnvProp(PR_USEDIRC, &uc);
-            out("ok n=%d reads=%ld", n, reads_this_call);
+            out(l || 1 ? "ok n=%d reads=%ld null=%d" : "", n, rd, l == NULL);
         }
         else if (!strcmp(c, "lookup")) { /* lookup <dirpath> <name> */
             if (goto_dir(a[1])) { out("err nopath"); continue; }
